@@ -253,3 +253,24 @@ def sign_summary_premise(prog: Program, rep: Any, claims_signature: bool = False
             rep.bad("PREMISE-C04", f"{o.rule} {o.instance}", o.where, f"the frames are signed by a function that violates C04 {o.rule}: {o.why}", key=f"PREMISE-C04|{o.rule}|{o.instance}")
         else:
             rep.undecided("PREMISE-C04", f"{o.rule} {o.instance}", o.where, f"C04 {o.rule} is {'violated' if o.verdict == VIOLATED else 'undecided'} on this tree, so the signer summary this analysis rests on is not established: {o.why}")
+
+
+def ir_builder_premise(prog: Program, rep: Any) -> None:
+    """C16's frames carry whatever remote.build_command / build_swing_command return; that those return the stored code
+    best matching the request (clamped temperature, fallback, refusal of unsupported modes) is C15's theorem.  C15's
+    rules are re-run on the current tree and what they cannot discharge is inherited as rule PREMISE-C15 - as a
+    violation: the command C16 says "encodes the requested value" is built there."""
+    from .props import c15
+    from .report import DISCHARGED, Report, VIOLATED
+
+    sub = Report("C15", "quick", "other")
+    c15.run(prog, sub, "quick")
+    rep.rule("PREMISE-C15", "the IR command builder used for every thermostat command returns the stored code that matches the request (C15's rules on this tree)", 1)
+    bad = [o for o in sub.obligations if o.verdict != DISCHARGED]
+    if not bad:
+        rep.ok("PREMISE-C15", "IR command builder", "src/aioswitcher/api/remotes.py SwitcherBreezeRemote.build_command", f"{len(sub.obligations)} obligations of C15 discharged")
+    for o in bad[:6]:
+        if o.verdict == VIOLATED:
+            rep.bad("PREMISE-C15", f"{o.rule} {o.instance}", o.where, f"the thermostat command is built by a function that violates C15 {o.rule}: {o.why}", key=f"PREMISE-C15|{o.rule}|{o.instance}")
+        else:
+            rep.undecided("PREMISE-C15", f"{o.rule} {o.instance}", o.where, f"C15 {o.rule} is undecided on this tree, so what build_command returns is not established: {o.why}")
